@@ -54,13 +54,31 @@ def as_fraction(value):
     return frac.numerator, frac.denominator
 
 
-def observe_params(text):
+ARC_LETTERS = ["X", "Y", "Z", "E", "F", "x", "y", "e", "X", "Y"]
+
+
+def arc_cases(rng, count):
+    """Arc commands with repeated / oddly spelled words; the centre offsets come last."""
+    cases = []
+    for _ in range(count):
+        words = []
+        for _ in range(rng.choice([2, 3, 3, 4])):
+            words.append(rng.choice(ARC_LETTERS) + rng.choice(["", " "]) +
+                         rng.choice(["5", "10", "-5", ".5", "+4", "12.75", "0", "7."]))
+        cases.append((rng.choice(["G2 ", "G3 ", "G2", "G03 "]),
+                      rng.choice([" ", ""]).join(words) + rng.choice([" I5 J0", " I0 J-4",
+                                                                       " J2.5", "I5"])))
+    return cases
+
+
+def observe_params(text, head=None):
     from octoprint_excluderegion.GcodeParser import GcodeParser
     from harness.rig import FilterRig, nat
     event = {"k": "params", "chars": list(text), "items": [], "raised": "", "moved": False,
-             "pos": {"X": 0, "Y": 0, "Z": 0, "E": 0}, "text": text}
+             "pos": {"X": 0, "Y": 0, "Z": 0, "E": 0}, "text": text, "head": head or ""}
     # the code glued to the first word, or one / two blanks after it
-    head = ["G1 ", "G1", "G1  ", "G1 "][len(text) % 4]
+    if head is None:
+        head = ["G1 ", "G1", "G1  ", "G1 "][len(text) % 4]
     try:
         items = list(GcodeParser().parse(head + text).parameterItems())
         for name, value in items:
@@ -210,6 +228,9 @@ def run(prop, tier, seed):
         cases = c19_cases(tier, rng)
         for text in cases:
             events.append(observe_params(text))
+        # "the move handlers act on the last value": the arc handler too
+        for head, text in arc_cases(rng, {"quick": 600, "thorough": 8000}[tier]):
+            events.append(observe_params(text, head))
     else:
         cases = c18_cases(tier, rng)
         for text in cases:
@@ -278,7 +299,7 @@ def replay(payload):
     import harness.rig  # noqa: F401
     event = payload["event"]
     if event["k"] == "params":
-        events = [observe_params(event["text"])]
+        events = [observe_params(event["text"], event.get("head") or None)]
     elif event["k"] == "lines":
         events = observe_lines(event["src"])
     else:
